@@ -60,6 +60,8 @@ impl Out {
         Out { w: BufWriter::new(f), n: 0 }
     }
     pub fn emit(&mut self, v: &Value) {
+        // TLC's Json module cannot read `null`: never emit it
+        let v = &scrub(v);
         serde_json::to_writer(&mut self.w, v).unwrap();
         self.w.write_all(b"\n").unwrap();
         self.n += 1;
@@ -101,4 +103,13 @@ pub fn quiet_panics() {
 /// Bytes as a JSON array of ints (TLC cannot index strings).
 pub fn bytes_json(b: &[u8]) -> Value {
     Value::Array(b.iter().map(|x| Value::from(*x as u64)).collect())
+}
+
+fn scrub(v: &Value) -> Value {
+    match v {
+        Value::Null => Value::String("null".into()),
+        Value::Array(a) => Value::Array(a.iter().map(scrub).collect()),
+        Value::Object(o) => Value::Object(o.iter().map(|(k, x)| (k.clone(), scrub(x))).collect()),
+        x => x.clone(),
+    }
 }
